@@ -26,6 +26,12 @@ static _Atomic unsigned long long dispatches; /* forward + silent + init, counte
 static _Atomic int run_returned;
 static int variant;
 static double term_time;
+static _Atomic int stop_called_flag;
+static void stop_wrapper(void)
+{
+	atomic_store(&stop_called_flag, 1);
+	RootsimStop();
+}
 
 static void obs_init(lp_id_t me, const struct vm_state *s)
 {
@@ -107,16 +113,42 @@ static void *watchdog(void *arg)
 				_exit(4);
 			}
 		}
-		/* bounded progress: forward executions and post-termination activity must stay within a step budget */
+		/* Bounded progress, as the property states it: once the termination condition holds - the GVT handed to every thread is beyond the
+		 * point where the last predicate became true in the sequential run / reached the termination time / RootsimStop() was called -
+		 * the run must return within a bounded number of further GVT reductions. */
+		{
+			double g = SIMTIME_MAX;
+			unsigned nt = 0;
+			for(unsigned t = 0; t < VH_MAXTHR; ++t)
+				if(vh_thread_seen(t)) {
+					nt++;
+					if(vh_thread_last_gvt(t) < g)
+						g = vh_thread_last_gvt(t);
+				}
+			int cond = nt && ((variant == 0 && REF.all_terminate && g > REF.stop_ts) || (variant == 1 && g >= term_time) || (variant >= 2 && atomic_load(&stop_called_flag)));
+			unsigned long long rounds = vh_counter_total(VC_GVT_ROUNDS);
+			static unsigned long long rounds0;
+			static int cond_seen;
+			if(cond && !cond_seen) {
+				cond_seen = 1;
+				rounds0 = rounds;
+			} else if(cond_seen && rounds - rounds0 > 80ULL * nt + 200) {
+				char buf[2048], sig[512];
+				vh_describe_threads(buf, sizeof(buf), sig, sizeof(sig));
+				vh_violation("C08", "runaway:termination-condition-holds", "the termination condition has held for %llu GVT values (GVT %g, sequential end point %g, termination time %g, stop called %d) and the run has not returned :: %s",
+				    rounds - rounds0, g, REF.stop_ts, term_time, (int)atomic_load(&stop_called_flag), buf);
+				printf("HANGSIG runaway-after-condition\n");
+				fflush(stdout);
+				_exit(3);
+			}
+		}
+		/* pure event budget: optimism is unbounded in the core and an adversarial schedule can make it thrash (observed: 2.4M executions for a
+		 * 17k-event model under the baton scheduler, GVT advancing all the time): no verdict, the case is inconclusive */
 		unsigned long long fw = vh_counter_total(VC_FWD);
 		if(fw > step_budget) {
-			char buf[2048], sig[512];
-			vh_describe_threads(buf, sizeof(buf), sig, sizeof(sig));
-			vh_violation("C08", "runaway:event-budget", "%llu forward executions, budget %llu (the sequential run needs %llu events) :: %s", fw, step_budget,
-			    (unsigned long long)REF.total_events, buf);
-			printf("HANGSIG runaway-events\n");
+			printf("STAT event_budget_exceeded 1\nBUDGET-EXCEEDED %llu forward executions, %llu GVT values consumed\n", fw, vh_counter_total(VC_GVT_ROUNDS));
 			fflush(stdout);
-			_exit(3);
+			_exit(5);
 		}
 		char buf[64], sig[512];
 		vh_describe_threads(buf, sizeof(buf), sig, sizeof(sig));
@@ -174,6 +206,7 @@ int main(int argc, char **argv)
 			VM.init_ts0 = 1;
 	}
 	vm_env = &vm_core_env;
+	vm_core_env.stop = stop_wrapper;
 	ref_run((uint64_t)VM.total_target * 30 + 20000, 4000, 3.0);
 	vm_describe(desc, sizeof(desc));
 	const char *wsz = getenv("OMPI_COMM_WORLD_SIZE");
